@@ -411,6 +411,7 @@ size_t SocketTlsImpl::Write(char const *data, size_t size)
         pendingSend = {};
         assert(written <= remaining.size());
         remaining.remove_prefix(written);
+        i = 0; // a record went out: the limit is for consecutive handshake steps only
       }
       assert(i < handshakeStepsMax);
     }
